@@ -15,10 +15,12 @@ package c17
 import (
 	"encoding/binary"
 	"fmt"
+	"net"
 	"os"
 	"runtime"
 	"sort"
 	"strings"
+	"sync"
 	"time"
 
 	"github.com/named-data/ndnd/fw/core"
@@ -43,6 +45,7 @@ const (
 	fH0 = 4 // non-local face
 	fH1 = 5 // non-local face with local fields enabled
 	fZ  = 6 // local face used only for barriers (never a command target)
+	fN  = 7 // the null face (NullLinkService, as yanfd creates at start-up)
 )
 
 type hookFace struct {
@@ -56,7 +59,12 @@ type world struct {
 	mface  face.LinkService
 	base   uint64
 	hooks  map[int]*hookFace // logical id -> face
-	extra  []face.LinkService
+	extra  []face.LinkService // faces created through faces/create
+	known  map[uint64]bool
+	null   *face.NullLinkService
+	lis    []net.Listener // loopback TCP listeners for tcp4 faces: {T1}, {T2} in URIs
+	conns  []net.Conn
+	connMu sync.Mutex
 	seq    uint64
 	up     bool
 }
@@ -76,6 +84,7 @@ func initOnce() {
 	cfg.Tables.ContentStore.Admit = false
 	cfg.Tables.ContentStore.Serve = false
 	cfg.Faces.CongestionMarking = false
+	cfg.Faces.Udp.PortUnicast = 46363 // local port of the unicast UDP faces made by faces/create
 	core.LoadConfig(cfg, "")
 	lf := os.DevNull
 	if os.Getenv("VERIF_C17_LOG") != "" {
@@ -107,6 +116,40 @@ func (w *world) logical(real uint64) uint64 {
 		return real - w.base + 1
 	}
 	return real
+}
+
+// URIs on op lines name the loopback TCP listeners as {T1}, {T2}; real ports differ per run.
+func (w *world) portsIn(s string) string {
+	for i, l := range w.lis {
+		s = strings.ReplaceAll(s, fmt.Sprintf("{T%d}", i+1), fmt.Sprint(l.Addr().(*net.TCPAddr).Port))
+	}
+	return s
+}
+
+func (w *world) portsOut(s string) string {
+	for i, l := range w.lis {
+		s = strings.ReplaceAll(s, fmt.Sprintf(":%d", l.Addr().(*net.TCPAddr).Port), fmt.Sprintf(":{T%d}", i+1))
+	}
+	return s
+}
+
+// localURIText: the local URI of an outgoing TCP face is set by its connect goroutine (a fake one
+// is reported until then): not compared.
+func (w *world) localURIText(remote, local string) string {
+	if strings.HasPrefix(remote, "tcp") {
+		return "tcp-local"
+	}
+	return w.portsOut(local)
+}
+
+// trackCreated remembers faces that appeared in the face table (faces/create) for teardown.
+func (w *world) trackCreated() {
+	for _, f := range face.FaceTable.GetAll() {
+		if !w.known[f.FaceID()] {
+			w.known[f.FaceID()] = true
+			w.extra = append(w.extra, f)
+		}
+	}
 }
 
 func waitUntil(what string, cond func() bool) bool {
@@ -158,10 +201,40 @@ func (w *world) teardown() {
 		h.ls.Close()
 		waitUntil("hook face gone", func() bool { return dispatch.GetFace(id) == nil && face.FaceTable.Get(id) == nil })
 	}
+	// Outgoing TCP faces are ended from the peer side (EOF): UnicastTCPTransport.Close() followed by
+	// the deferred Close() of its receive loop blocks for ever on the transport's reconnect channel
+	// and the face would never leave the face table (reported to the lead; not a C17 matter).
+	nTCP := 0
+	for _, l := range w.extra {
+		if strings.HasPrefix(l.RemoteURI().Scheme(), "tcp") {
+			nTCP++
+		}
+	}
+	waitUntil("tcp faces connected", func() bool {
+		w.connMu.Lock()
+		defer w.connMu.Unlock()
+		return len(w.conns) >= nTCP
+	})
+	for _, l := range w.lis {
+		l.Close()
+	}
+	w.connMu.Lock()
+	for _, c := range w.conns {
+		c.Close()
+	}
+	w.conns = nil
+	w.connMu.Unlock()
 	for _, l := range w.extra {
 		id := l.FaceID()
-		l.Close()
+		if !strings.HasPrefix(l.RemoteURI().Scheme(), "tcp") {
+			l.Close()
+		}
 		waitUntil("created face gone", func() bool { return face.FaceTable.Get(id) == nil })
+	}
+	if w.null != nil {
+		id := w.null.FaceID()
+		w.null.Close()
+		waitUntil("null face gone", func() bool { return face.FaceTable.Get(id) == nil })
 	}
 	w.mface.Close()
 	<-w.mgDone
@@ -179,7 +252,9 @@ func (w *world) teardown() {
 		buf := make([]byte, 1<<18)
 		st := string(buf[:runtime.Stack(buf, true)])
 		return !strings.Contains(st, "fw/face.(*NDNLPLinkService)") && !strings.Contains(st, "fw/mgmt.(*Thread)") &&
-			!strings.Contains(st, "fw/fw.(*Thread)") && !strings.Contains(st, "fw/face.(*Table).Remove")
+			!strings.Contains(st, "fw/fw.(*Thread)") && !strings.Contains(st, "fw/face.(*Table).Remove") &&
+			!strings.Contains(st, "fw/face.(*NullLinkService)") && !strings.Contains(st, "fw/face.(*UnicastUDPTransport)") &&
+			!strings.Contains(st, "fw/face.(*UnicastTCPTransport)")
 	})
 }
 
@@ -244,6 +319,34 @@ func (w *world) setup(localhop bool, fibAlg string) string {
 	w.addHook(fH0, "udp4://192.0.2.10:6363", "udp4://192.0.2.2:6363", defn.NonLocal, false)
 	w.addHook(fH1, "udp4://192.0.2.11:6363", "udp4://192.0.2.2:6363", defn.NonLocal, true)
 	w.addHook(fZ, "udp4://127.0.0.1:7009", "udp4://127.0.0.1:6363", defn.Local, false)
+	w.null = face.MakeNullLinkService(face.MakeNullTransport())
+	w.null.Run(nil)
+	if w.logical(w.null.FaceID()) != fN {
+		panic("harness: null face numbering")
+	}
+	w.lis = nil
+	for i := 0; i < 2; i++ {
+		l, err := net.Listen("tcp4", "127.0.0.1:0")
+		if err != nil {
+			panic("harness: loopback listen: " + err.Error())
+		}
+		w.lis = append(w.lis, l)
+		go func(l net.Listener) {
+			for {
+				c, err := l.Accept()
+				if err != nil {
+					return
+				}
+				w.connMu.Lock()
+				w.conns = append(w.conns, c)
+				w.connMu.Unlock()
+			}
+		}(l)
+	}
+	w.known = map[uint64]bool{}
+	for _, f := range face.FaceTable.GetAll() {
+		w.known[f.FaceID()] = true
+	}
 	w.up = true
 	if !w.barrier() {
 		return "HANG"
@@ -257,6 +360,16 @@ func (w *world) setup(localhop bool, fibAlg string) string {
 // ---------------------------------------------------------------- packets
 
 func (w *world) nextSeq() uint64 { w.seq++; return w.seq }
+
+func makeInterestApp(name enc.Name, nonce uint64, app []byte) []byte {
+	lt := 8 * time.Second
+	n := nonce
+	i, err := spec.Spec{}.MakeInterest(name, &ndn.InterestConfig{CanBePrefix: true, MustBeFresh: true, Nonce: &n, Lifetime: &lt}, enc.Wire{app}, nil)
+	if err != nil {
+		panic("harness: MakeInterest: " + err.Error())
+	}
+	return i.Wire.Join()
+}
 
 func makeInterest(name enc.Name, nonce uint64) []byte {
 	// long enough that an answer always finds its PIT entry, however loaded the machine is
@@ -438,7 +551,7 @@ func (w *world) dumpSc() string {
 	return joinOrDash(es, "|")
 }
 
-func faceText(id uint64, uri string, scope uint64, pers uint64, mtu uint64, flags uint64, bcmi *uint64, dct *uint64) string {
+func faceText(id uint64, uri string, luri string, scope uint64, pers uint64, mtu uint64, flags uint64, bcmi *uint64, dct *uint64) string {
 	b, d := "-", "-"
 	if bcmi != nil {
 		b = fmt.Sprint(*bcmi)
@@ -446,7 +559,7 @@ func faceText(id uint64, uri string, scope uint64, pers uint64, mtu uint64, flag
 	if dct != nil {
 		d = fmt.Sprint(*dct)
 	}
-	return fmt.Sprintf("%d:%s:%d:%d:%d:%d:%s:%s", id, uri, scope, pers, mtu, flags, b, d)
+	return fmt.Sprintf("%d,%s,%s,%d,%d,%d,%d,%s,%s", id, uri, luri, scope, pers, mtu, flags, b, d)
 }
 
 func (w *world) dumpFaces() string {
@@ -465,7 +578,8 @@ func (w *world) dumpFaces() string {
 			b := uint64(o.BaseCongestionMarkingInterval.Nanoseconds())
 			bcmi, dct = &b, &o.DefaultCongestionThresholdBytes
 		}
-		fs = append(fs, fe{id, faceText(id, f.RemoteURI().String(), uint64(f.Scope()), uint64(f.Persistency()), uint64(f.MTU()), flags, bcmi, dct)})
+		ru := f.RemoteURI().String()
+		fs = append(fs, fe{id, faceText(id, w.portsOut(ru), w.localURIText(ru, f.LocalURI().String()), uint64(f.Scope()), uint64(f.Persistency()), uint64(f.MTU()), flags, bcmi, dct)})
 	}
 	sort.Slice(fs, func(i, j int) bool { return fs[i].id < fs[j].id })
 	var ss []string
@@ -505,8 +619,18 @@ func (w *world) argsText(a *mg.ControlArgs) string {
 		v := w.logical(*a.FaceId)
 		u64p("F", &v, &o)
 	}
-	strp("U", a.Uri, &o)
-	strp("L", a.LocalUri, &o)
+	if a.Uri != nil {
+		u := w.portsOut(*a.Uri)
+		strp("U", &u, &o)
+	}
+	if a.LocalUri != nil {
+		ru := ""
+		if a.Uri != nil {
+			ru = *a.Uri
+		}
+		l := w.localURIText(ru, *a.LocalUri)
+		strp("L", &l, &o)
+	}
 	u64p("O", a.Origin, &o)
 	u64p("C", a.Cost, &o)
 	u64p("K", a.Capacity, &o)
@@ -608,16 +732,26 @@ func (w *world) datasetText(kind string, content []byte) string {
 		if err != nil {
 			return "undecodable"
 		}
-		var ss []string
+		type fe struct {
+			id uint64
+			s  string
+		}
+		var fs []fe
 		for _, f := range m.Vals {
 			mtu := uint64(0)
 			if f.Mtu != nil {
 				mtu = *f.Mtu
 			}
-			ss = append(ss, faceText(w.logical(f.FaceId), f.Uri, f.FaceScope, f.FacePersistency, mtu, f.Flags, f.BaseCongestionMarkInterval, f.DefaultCongestionThreshold))
+			id := w.logical(f.FaceId)
+			fs = append(fs, fe{id, faceText(id, w.portsOut(f.Uri), w.localURIText(f.Uri, f.LocalUri), f.FaceScope, f.FacePersistency, mtu, f.Flags, f.BaseCongestionMarkInterval, f.DefaultCongestionThreshold)})
 		}
 		if kind == "faces/query" {
-			sort.Strings(ss) // the code leaves query results in map order
+			// the code leaves query results in map order
+			sort.SliceStable(fs, func(i, j int) bool { return fs[i].id < fs[j].id })
+		}
+		var ss []string
+		for _, f := range fs {
+			ss = append(ss, f.s)
 		}
 		return joinOrDash(ss, "|")
 	}
